@@ -83,7 +83,7 @@ static tree gen_tree(rng &r)
 				int nsel = ng ? r.range(1, std::min(ng, 6)) : 0;
 				if (e.style == 0) { for (int g = 0; g < nsel; g++) e.groups.push_back(r.chance(1, 8) ? 0 : r.range(1, ng)); if (ng == PATS[e.pat].ngroups && PATS[e.pat].tmpl && r.chance(2, 3)) { e.groups.clear(); for (int g = 1; g <= ng && g <= 6; g++) e.groups.push_back(g); } }
 				else for (int g = 0; g <= ng; g++) e.groups.push_back(g);
-				if (e.style == 3) { static char const *ms[] = { "GET", "POST", "(PUT|DELETE)", "P.*", "get" }; e.method = ms[r.below(5)]; }
+				if (e.style == 3) { static char const *ms[] = { "GET", "POST", "(PUT|DELETE)", "P.*", "get", "GET|HEAD", "P(OS|U)T", "[A-Z]+T", "(PATCH|PUT)" }; e.method = ms[r.below(9)]; }
 				if (PATS[e.pat].tmpl) e.key = "k" + std::to_string(hi);
 				hi++;
 			} else {
@@ -243,7 +243,8 @@ static void one_tree(rng &r, long long idx, long long dispatches)
 	std::string tj = tree_json(t);
 	O().count("trees");
 	O().seen("trees", fnv(tj));
-	static char const *methods[] = { "GET", "POST", "PUT", "DELETE", "PATCH", "get", "HEAD" };
+	// besides the usual ones: methods that merely contain, start or end with one a filter allows (the filter is a whole-string match)
+	static char const *methods[] = { "GET", "POST", "PUT", "DELETE", "PATCH", "get", "HEAD", "XPUT", "PUTX", "DELETED", "OPTIONS", "PROPPATCH", "INPUTS", "FORGET", "OVERHEAD", "XPOST", "COMPUTE", "gets", "" };
 	auto route = [&](std::string const &url, std::string const &method, std::string &output) {
 		std::map<std::string, std::string> env;
 		env["REQUEST_METHOD"] = method; env["PATH_INFO"] = url; env["SCRIPT_NAME"] = ""; env["HTTP_HOST"] = "localhost"; env["SERVER_PROTOCOL"] = "HTTP/1.0";
@@ -258,7 +259,7 @@ static void one_tree(rng &r, long long idx, long long dispatches)
 	};
 	for (long long i = 0; i < dispatches; i++) {
 		std::string url = gen_url(r, t);
-		std::string method = methods[r.below(7)];
+		std::string method = methods[r.chance(1, 2) ? r.below(7) : r.below(19)];
 		std::vector<std::string> want_args;
 		int want = model_dispatch(t, 0, url, method, want_args);
 		std::string out;
